@@ -104,11 +104,12 @@ CHECKS = {
         text='Proved: if the model of the syntax check reports full support then every statement is readable by the '
              'calculus reading Spec.desugar, under two explicit exclusions each with a kernel-checked witness (++ on a '
              'constant; trees the C parser cannot produce); nested unary operations no longer need an exclusion since the repair of Coverage.UnaryOp. Controlling '
-             'expressions are not inspected by the syntax check at all (negative witness proved; known findings). Every '
+             'expressions: full support implies that no condition of if / while / do-while / for changes a variable '
+             '(full_support_means_effect_free_conditions; the four former known findings are repaired). Every '
              'run feeds the real Coverage verdict and the real analysis warnings for every statement form x position '
              'template to the Lean predicate and diffs the Coverage model (omit count, tree after ast_mod).',
         design_ref='DESIGN.md §5 C05',
-        note='Known findings listed in known_findings.json (side effects in conditions, nested unary).'),
+        note='No known finding left for C05; the repaired ones are kept as fixed entries in known_findings.json.'),
     'C07': dict(
         technique='Lean 4 proof (mutual structural induction over the syntax tree on the Coverage/ast_mod model) + differential correspondence and metamorphic runs',
         text='Proved: a fully supported tree is untouched by the removal pass; after the removal pass the syntax check '
